@@ -8,6 +8,7 @@ import (
 	"io"
 	"strings"
 	"testing"
+	"time"
 
 	"github.com/keybase/go-codec/codec"
 	"github.com/keybase/msgpackzip"
@@ -88,8 +89,9 @@ func vScenarioCases(t *testing.T, withDecode bool) {
 			}
 		case "scn", "enc":
 			vGuard(out, c.kind, c.id, func() {
+				t0 := time.Now()
 				evs := vInflateEvents(vRunScenario(c))
-				out.printf("%s %s ev=%s", c.kind, c.id, strings.Join(evs, ";"))
+				out.printf("%s %s ms=%d ev=%s", c.kind, c.id, time.Since(t0).Milliseconds(), strings.Join(evs, ";"))
 			})
 		}
 		out.flush()
